@@ -1,5 +1,5 @@
 """C02 - see DESIGN.md section 5"""
 from . import semprops, semjobs
-spec, validate = semprops.make(['complete', 'bio/complete', 'hyb/complete'], 'complete', backend_kinds=('complete',))
+spec, validate = semprops.make(['complete', 'bio/complete', 'hyb/complete', 'hybrew/complete'], 'complete', backend_kinds=('complete',))
 replay = semprops.replay
 key = semprops.key
